@@ -134,3 +134,90 @@ pub fn run(seed: u64, tier: &str, out: &mut Out) {
         out.emit(&format!("TPL {fx} {}", cps(&tpl)), &format!("{c} ORACLE {}", verdict.replace('\n', "\\n")));
     }
 }
+
+/// C10R — the walk of `format_state` over the parsed template: the lines handed to the draw target for generated
+/// templates (literals of one-, two- and three-byte characters, tabs, escapes, `{`+whitespace, line breaks, the keys
+/// msg / prefix / pos / len / bar / wide_msg / wide_bar, a custom key, unknown keys, all field attributes) and generated
+/// messages (line breaks, tabs, trailing blanks, double-width characters) are compared with the Lean model `Render.formatState`
+/// applied to the model's own parse of the same template.
+pub fn run_render(seed: u64, tier: &str, out: &mut Out) {
+    console::set_colors_enabled(false);
+    let mut rng = Rng::new(seed ^ 0x10e);
+    let n = if tier == "thorough" { 150_000 } else { 4_000 };
+    let lit_pool: Vec<char> = "ab :!./<7\",é日x".chars().collect();
+    let txt_pool: Vec<char> = "abcdef  é日本\u{a0}".chars().collect();
+    let cp = |s: &str| cps(s);
+    for _ in 0..n {
+        let width = *rng.pick(&[1u16, 2, 5, 10, 17, 20, 40, 80]);   // the properties quantify over terminals from 1x1 upwards
+        let gen_text = |rng: &mut Rng, max: u64| -> String {
+            let mut s: String = (0..rng.below(max)).map(|_| *rng.pick(&txt_pool)).collect();
+            if rng.chance(1, 6) { let at = rng.below(s.chars().count() as u64 + 1) as usize; let b = s.char_indices().nth(at).map_or(s.len(), |(i, _)| i); s.insert(b, *rng.pick(&['\n', '\t'])); }
+            if rng.chance(1, 5) { s.push_str(*rng.pick(&[" ", "  ", "\u{3000}", "\n"])); }
+            s
+        };
+        let msg = gen_text(&mut rng, 30);
+        let prefix = gen_text(&mut rng, 6);
+        let foo = if rng.chance(1, 4) { "F\tO".to_string() } else { "FOO".to_string() };
+        let mut tpl = String::new();
+        let mut has_bar = false;
+        for _ in 0..rng.range(1, 8) {
+            match rng.below(12) {
+                0 | 1 | 2 => { let len = rng.range(1, 6); let s: String = (0..len).map(|_| *rng.pick(&lit_pool)).collect(); tpl.push_str(&s); }
+                3 => tpl.push_str("{{"),
+                4 => tpl.push_str("}}"),
+                5 => { tpl.push('{'); tpl.push_str(*rng.pick(&["", "", "ab"])); tpl.push(*rng.pick(&[' ', '\t', '\n'])); }
+                6 => tpl.push('\n'),
+                7 => tpl.push('\t'),
+                _ => {
+                    let key = *rng.pick(&["msg", "prefix", "pos", "len", "foo", "nosuchkey", "wide_msg", "wide_msg", "wide_bar", "bar"]);
+                    if key.ends_with("bar") { has_bar = true; }
+                    let mut ph = format!("{{{key}");
+                    if rng.chance(1, 2) {
+                        ph.push(':');
+                        if let Some(a) = *rng.pick(&[Some('<'), Some('^'), Some('>'), None]) { ph.push(a); }
+                        if rng.chance(2, 3) { ph.push_str(&rng.pick(&[0u64, 1, 2, 3, 5, 12, 25]).to_string()); }
+                        if rng.chance(1, 3) { ph.push('!'); }
+                        if rng.chance(1, 4) { ph.push_str(".red"); if rng.chance(1, 2) { ph.push_str("/blue"); } }
+                    }
+                    ph.push('}');
+                    tpl.push_str(&ph);
+                }
+            }
+        }
+        let style = match catch_unwind({ let t = tpl.clone(); move || ProgressStyle::with_template(&t) }) { Ok(Ok(s)) => s, _ => continue };
+        let len = rng.range(0, 2000);
+        let pos = if has_bar { len } else { rng.range(0, 2500) };
+        let tab = if rng.chance(1, 4) { Some(*rng.pick(&[1usize, 2, 4])) } else { None };
+        let rec = Recorder::new(60000, width, false);
+        let (rec2, msg2, prefix2, foo2) = (rec.clone(), msg.clone(), prefix.clone(), foo.clone());
+        let res = catch_unwind(std::panic::AssertUnwindSafe(move || {
+            let pb = ProgressBar::with_draw_target(Some(len), ProgressDrawTarget::term_like(Box::new(rec2.clone())));
+            pb.set_position(pos);
+            pb.set_style(style.progress_chars("##-").with_key("foo", move |_: &ProgressState, w: &mut dyn std::fmt::Write| { write!(w, "{foo2}").unwrap() }));
+            if let Some(t) = tab { pb.set_tab_width(t); }
+            pb.set_prefix(prefix2); pb.set_message(msg2);
+            { rec2.st.lock().unwrap().ops.clear(); }
+            pb.force_draw();
+            let ops = rec2.st.lock().unwrap().ops.clone();
+            std::mem::forget(pb);
+            ops
+        }));
+        let case = format!("RENDER {width} {} tpl={} msg={} prefix={} pos={pos} len={len} foo={} fill=35 cw=233:1,26085:2,26412:2,160:1,12288:2",
+            tab.unwrap_or(8), cp(&tpl), cp(&msg), cp(&prefix), cp(&foo));
+        match res {
+            Err(_) => out.emit(&case, &format!("panic ORACLE FAIL panic while rendering tpl={tpl:?} msg={msg:?} width={width}")),
+            Ok(ops) => {
+                // one frame on a fresh target: per line [write_line("")] write_str(line) [write_str(" ")], then the filler
+                let mut groups: Vec<Vec<String>> = vec![vec![]];
+                for o in &ops { match o { Op::Line(_) => groups.push(vec![]), Op::Str(s) => groups.last_mut().unwrap().push(s.clone()), _ => {} } }
+                let lines: Vec<String> = if groups.len() == 1 && groups[0].is_empty() { vec![] } else { groups.iter().map(|g| g.first().cloned().unwrap_or_default()).collect() };
+                let shown = lines.iter().map(|l| if l.is_empty() { "-".to_string() } else { l.chars().map(|c| (c as u32).to_string()).collect::<Vec<_>>().join(".") }).collect::<Vec<_>>().join("|");
+                // oracle (independent of the model): no TAB and no NUL marker reaches the target; a line holding a wide element
+                // alone with fixed text is never wider than the terminal unless the fixed text alone is
+                let bad = lines.iter().any(|l| l.contains('\t') || l.contains('\0') || l.contains('\n'));
+                let verdict = if bad { format!("FAIL a TAB, NUL or line break reached the draw target: tpl={tpl:?} msg={msg:?} lines={lines:?}") } else { "ok".into() };
+                out.emit(&case, &format!("n={} {shown} ORACLE {}", lines.len(), verdict.replace('\n', "\\n")));
+            }
+        }
+    }
+}
